@@ -150,6 +150,33 @@ def run(chk):
             p0 = max(0, v + r.choice([0, 0, 0, 1, -1]))
             buf = bytearray(r.choice(b" .") for _ in range(p0 + len(strs[0]) + r.below(4)))
             buf[p0:p0 + len(strs[0])] = strs[0]
+        if i % 10 == 2:
+            # aimed at the manual's precedence / associativity table: `a op1 b op2 c` without parentheses for every ordered pair of binary
+            # operators, with operands for which the two groupings have different values (both groupings are generated; the printer adds
+            # parentheses only where the manual's table needs them), constant and with a run-time operand
+            ops = sorted(condgen.ARITH)
+            pi = (i // 10) % (len(ops) * len(ops))
+            op1, op2 = ops[pi // len(ops)], ops[pi % len(ops)]
+            found = None
+            for _ in range(60):
+                a, b, c_ = r.choice([1, 2, 3, 5, 7, 9, 12, 20, 33, 64, 100]), r.choice([1, 2, 3, 4, 5, 7]), r.choice([1, 2, 3, 4, 5, 6])
+                L = (op2, (op1, ("lit", a), ("lit", b)), ("lit", c_))
+                R = (op1, ("lit", a), (op2, ("lit", b), ("lit", c_)))
+                try:
+                    vl, vr = condgen.const_value(L), condgen.const_value(R)
+                except ZeroDivisionError:
+                    continue
+                if vl != vr and 0 <= vl < 2 ** 40 and 0 <= vr < 2 ** 40:
+                    found = (L, R, vl, vr, a)
+                    break
+            if found:
+                L, R, vl, vr, a = found
+                exts[0] = a
+                rt = lambda t: (t[0], rt(t[1]), rt(t[2])) if t[0] != "lit" else (("ext", 0) if t[1] == a else t)
+                trees = [("cmp", "eq", L, ("lit", vl)), ("cmp", "eq", R, ("lit", vr)), ("cmp", "eq", rt(L), ("lit", vl)), ("cmp", "eq", rt(R), ("lit", vr))]
+                names = ["r0", "r1", "r2", "r3"]
+                src = "".join("rule %s { strings: %s condition: %s or (false and any of them) }\n" % (names[k], decl, condgen.Printer(names).raw(t)) for k, t in enumerate(trees))
+                trees = [("or", t, ("and", ("f",), ("of", "any", [0, 1, 2]))) for t in trees]
         if i % 10 == 1:
             # aimed at the loop-variable frames: 3 or 4 nested loops (ranges, lists, and a `for..of` innermost) whose verdict depends on the
             # variables and quantifiers of EVERY level (each loop keeps counters, quantifier and variable in its own frame of the VM memory)
